@@ -48,9 +48,13 @@ struct function_t
     verif_varlist variables;
     BodyStatement* body;
 };
+/* the document as the type checker sees it: its global declarations own a frame that declares an arbitrary set of symbols */
+struct verif_globals { frame_t frame; };
+struct verif_document { verif_globals g; verif_globals& get_globals() { return g; } };
 class TypeChecker
 {
 public:
+    verif_document document;
     void visitFunction_tail(function_t& fun);
 };
 }
@@ -61,6 +65,8 @@ using namespace Constants;
 static function_t fun;
 static BodyStatement body;
 extern "C" void w_c11_scope(unsigned declared_in_scope) { verif_scope_frame.n = 0; verif_scope_frame.declared = declared_in_scope; }
+static unsigned verif_global_declared;
+extern "C" void w_c11_globals(unsigned declared_globally) { verif_global_declared = declared_globally; }
 extern "C" void w_c11_visit_function(unsigned w, unsigned r, unsigned ch_in, unsigned dep_in, int nparams, int nframe, int f0, int f1, int f2, int f3,
                                      int nloc, int l0, int l1, int l2, unsigned* ch_out, unsigned* dep_out, int* vw, int* vr)
 {
@@ -77,6 +83,7 @@ extern "C" void w_c11_visit_function(unsigned w, unsigned r, unsigned ch_in, uns
     verif_syms[0].type = ft;
     fun.changes.mask = ch_in; fun.depends.mask = dep_in;
     TypeChecker tc;
+    tc.document.g.frame.n = 0; tc.document.g.frame.declared = verif_global_declared;
     tc.visitFunction_tail(fun);
     *ch_out = fun.changes.mask; *dep_out = fun.depends.mask; *vw = body.visited_w; *vr = body.visited_r;
 }
